@@ -507,7 +507,8 @@ impl<'a> Gen<'a> {
     }
 
     fn failing(&mut self) {
-        match self.rng.below(if self.f.wide { 10 } else { 8 }) {
+        match self.rng.below(if self.f.wide { 11 } else { 8 }) {
+            10 => self.emits(&["\"insn limit reached: 7\"", "error"]),
             8 => self.emits(&["3", "exit"]),
             9 => self.emits(&["\"zz\"", "str>number"]),
             0 => self.emits(&["1", "0", "/"]),
